@@ -406,6 +406,30 @@ class Body:
             kinds.add(rets[-1][1] if rets else "none")
         return kinds
 
+    def ret_kinds_v(self, start):
+        """variant-sensitive variant of ret_kinds: kinds of the values assigned to the return place(s) in blocks that can be
+        reached after passing through `start`, pruning switches on discriminants / constants that are known on the way
+        (so `x = None; match x { .. }` after an expanded adaptor does not fan out again)"""
+        rp = self.ret_places()
+        blocks = self.reach_v(via=start)
+        kinds = set()
+        for bb in blocks:
+            bl = self.blocks[bb]
+            for idx, st in enumerate(bl["stmts"]):
+                if st["k"] == "assign" and st["place"]["l"] in rp and not st["place"]["p"]:
+                    if st.get("inlined_return") or (bb, idx) in self._ret_pass:
+                        continue
+                    rv = st["rv"]
+                    if rv["k"] == "agg" and rv["agg"] == "adt" and rv["adt"] in ("core::result::Result", "core::option::Option", "core::task::poll::Poll"):
+                        kinds.add(rv["vname"])
+                    else:
+                        kinds.add("other")
+            t = bl["term"]
+            if t and t["k"] == "call" and t["dest"]["l"] in rp and not t["dest"]["p"]:
+                d, rd, ga, fn = callee(t)
+                kinds.add("residual" if d and d.endswith("from_residual") else "call:%s" % d)
+        return kinds
+
     def decision_rows_dp(self, start=0, extra_classify=None):
         """finite decision table of a small function: set of (conditions, result) where conditions is a tuple of
         (printed discriminant origin, origin, 'eq'|'ne', value(s)) taken on switch edges whose discriminant is a program value
@@ -1268,6 +1292,215 @@ def inline_async(body, want, depth=2):
     if not changed:
         return body
     return Body(body.name.replace("#tmp", "") + "#inlined", raw, mir)
+
+
+def _subst_env(node, env_local, upmap):
+    """rewrite closure-environment places `(_1.k).rest` / `((*_1).k).rest` to `(_u_k).rest`"""
+    if isinstance(node, dict):
+        if "l" in node and "p" in node and isinstance(node.get("p"), list):
+            p = node["p"]
+            if node["l"] == env_local and p:
+                q = p[1:] if p[0] == "deref" else p
+                if q and isinstance(q[0], dict) and "f" in q[0] and q[0]["f"] in upmap:
+                    return {"l": upmap[q[0]["f"]], "p": [_subst_env(x, env_local, upmap) for x in q[1:]]}
+            return {"l": node["l"], "p": [_subst_env(x, env_local, upmap) for x in p]}
+        return {k: _subst_env(v, env_local, upmap) for k, v in node.items()}
+    if isinstance(node, list):
+        return [_subst_env(x, env_local, upmap) for x in node]
+    return node
+
+
+def _agg(adt, variant, vname, ops):
+    return {"k": "agg", "agg": "adt", "adt": adt, "variant": variant, "vname": vname, "fields": [str(i) for i in range(len(ops))], "gargs": [], "union_field": None, "ops": ops}
+
+
+OPT, RES = "core::option::Option", "core::result::Result"
+# adaptor -> (receiver kind, arms): arms maps a receiver variant (or 'true'/'false') to what the result is:
+#   ('same',)            the receiver unchanged            ('payload',)        the receiver's payload
+#   ('wrap', adt, i, n, X) variant (i, n) of adt around X, X in {'payload', 'call', 'none'}
+#   ('call',)            the closure's result             ('arg', k)          operand k of the adaptor call
+_ADAPT = [
+    (r"Option::<T>::map$", "opt", 1, {"None": ("wrap", OPT, 0, "None", "none"), "Some": ("wrap", OPT, 1, "Some", "call")}),
+    (r"Option::<T>::and_then$", "opt", 1, {"None": ("wrap", OPT, 0, "None", "none"), "Some": ("call",)}),
+    (r"Option::<T>::map_or$", "opt", 2, {"None": ("arg", 1), "Some": ("call",)}),
+    (r"Option::<T>::unwrap_or_else$", "opt", 1, {"None": ("call0",), "Some": ("payload",)}),
+    (r"Option::<T>::ok_or_else$", "opt", 1, {"None": ("wrap", RES, 1, "Err", "call0"), "Some": ("wrap", RES, 0, "Ok", "payload")}),
+    (r"Option::<T>::filter$", None, 1, None),
+    (r"Result::<T, E>::map$", "res", 1, {"Ok": ("wrap", RES, 0, "Ok", "call"), "Err": ("wrap", RES, 1, "Err", "payload")}),
+    (r"Result::<T, E>::map_err$", "res", 1, {"Ok": ("wrap", RES, 0, "Ok", "payload"), "Err": ("wrap", RES, 1, "Err", "call")}),
+    (r"Result::<T, E>::and_then$", "res", 1, {"Ok": ("call",), "Err": ("wrap", RES, 1, "Err", "payload")}),
+    (r"bool::then$", "bool", 1, {"false": ("wrap", OPT, 0, "None", "none"), "true": ("wrap", OPT, 1, "Some", "call0")}),
+]
+
+
+def expand_adaptors(body, depth=3):
+    """New Body in which calls to the closure-taking Option / Result / bool adaptors (map, and_then, map_or, unwrap_or_else,
+    ok_or_else, map_err, then) whose closure is a literal of this function, and `transpose`, are replaced by the match they
+    stand for, with the closure's body spliced in.  `x.map(|n| f(n))` and `match x { Some(n) => Some(f(n)), None => None }`
+    then have the same control-flow graph, so path, dominance and provenance rules see through combinator style."""
+    mir = body.mir
+    raw = body.raw
+    changed = False
+    for _ in range(depth * 4):
+        blocks = [dict(b, stmts=list(b["stmts"])) for b in raw["blocks"]]
+        locals_ = list(raw["locals"])
+        promoted = list(raw.get("promoted") or [])
+        did = False
+        for bi in range(len(blocks)):
+            t = blocks[bi]["term"]
+            if not t or t["k"] != "call" or t.get("target") is None or not t["args"]:
+                continue
+            d, rd, ga, fn = callee(t)
+            name = d or ""
+            recv = t["args"][0].get("move") or t["args"][0].get("copy")
+            if recv is None or recv["p"]:
+                continue
+            aty = (t.get("argtys") or [""])[0]
+            line = t.get("line")
+
+            def new_local(ty):
+                locals_.append({"ty": ty, "name": None})
+                return len(locals_) - 1
+
+            def payload(vidx, vname):
+                return {"move": {"l": recv["l"], "p": [{"downcast": vidx, "name": vname}, {"f": 0, "name": "0", "ty": "?"}]}}
+
+            def assign(place, rv):
+                return {"k": "assign", "place": place, "rv": rv, "line": line, "exp": False, "expanded": name}
+            arms = None
+            kind = None
+            clo_idx = None
+            if name.endswith("::transpose") and aty.startswith(OPT):
+                # Option<Result<T, E>> -> Result<Option<T>, E>
+                kind = "transpose_opt"
+            elif name.endswith("::transpose") and aty.startswith(RES):
+                kind = "transpose_res"
+            else:
+                for rx, k, ci, am in _ADAPT:
+                    if re.search(rx, name) and am is not None:
+                        kind, clo_idx, arms = k, ci, am
+                        break
+            if kind is None:
+                continue
+            dest, target = t["dest"], t["target"]
+            if kind in ("transpose_opt", "transpose_res"):
+                dl = new_local("isize")
+                d2 = new_local("isize")
+                inner = new_local("?")
+                b_none, b_some, b_ok, b_err, b_unr = len(blocks), len(blocks) + 1, len(blocks) + 2, len(blocks) + 3, len(blocks) + 4
+                tmp = new_local("?")
+                if kind == "transpose_opt":
+                    # None -> Ok(None); Some(Ok(v)) -> Ok(Some(v)); Some(Err(e)) -> Err(e)
+                    blocks[bi]["stmts"].append(assign({"l": dl, "p": []}, {"k": "discr", "place": {"l": recv["l"], "p": []}, "of": aty}))
+                    blocks[bi]["term"] = {"k": "switch", "discr": {"move": {"l": dl, "p": []}}, "dty": "isize", "targets": [["0", b_none], ["1", b_some]], "otherwise": b_unr, "line": line, "exp": False}
+                    blocks.append({"stmts": [assign({"l": tmp, "p": []}, _agg(OPT, 0, "None", [])), assign(dest, _agg(RES, 0, "Ok", [{"move": {"l": tmp, "p": []}}]))],
+                                   "term": {"k": "goto", "target": target, "line": line}, "cleanup": False})
+                    blocks.append({"stmts": [assign({"l": inner, "p": []}, {"k": "use", "x": payload(1, "Some")}),
+                                             assign({"l": d2, "p": []}, {"k": "discr", "place": {"l": inner, "p": []}, "of": "core::result::Result<?, ?>"})],
+                                   "term": {"k": "switch", "discr": {"move": {"l": d2, "p": []}}, "dty": "isize", "targets": [["0", b_ok], ["1", b_err]], "otherwise": b_unr, "line": line, "exp": False},
+                                   "cleanup": False})
+                    blocks.append({"stmts": [assign({"l": tmp, "p": []}, _agg(OPT, 1, "Some", [{"move": {"l": inner, "p": [{"downcast": 0, "name": "Ok"}, {"f": 0, "name": "0", "ty": "?"}]}}])),
+                                             assign(dest, _agg(RES, 0, "Ok", [{"move": {"l": tmp, "p": []}}]))], "term": {"k": "goto", "target": target, "line": line}, "cleanup": False})
+                    blocks.append({"stmts": [assign(dest, _agg(RES, 1, "Err", [{"move": {"l": inner, "p": [{"downcast": 1, "name": "Err"}, {"f": 0, "name": "0", "ty": "?"}]}}]))],
+                                   "term": {"k": "goto", "target": target, "line": line}, "cleanup": False})
+                else:
+                    # Ok(None) -> None; Ok(Some(v)) -> Some(Ok(v)); Err(e) -> Some(Err(e))
+                    blocks[bi]["stmts"].append(assign({"l": dl, "p": []}, {"k": "discr", "place": {"l": recv["l"], "p": []}, "of": aty}))
+                    blocks[bi]["term"] = {"k": "switch", "discr": {"move": {"l": dl, "p": []}}, "dty": "isize", "targets": [["0", b_some], ["1", b_none]], "otherwise": b_unr, "line": line, "exp": False}
+                    blocks.append({"stmts": [assign({"l": tmp, "p": []}, _agg(RES, 1, "Err", [payload(1, "Err")])), assign(dest, _agg(OPT, 1, "Some", [{"move": {"l": tmp, "p": []}}]))],
+                                   "term": {"k": "goto", "target": target, "line": line}, "cleanup": False})
+                    blocks.append({"stmts": [assign({"l": inner, "p": []}, {"k": "use", "x": payload(0, "Ok")}),
+                                             assign({"l": d2, "p": []}, {"k": "discr", "place": {"l": inner, "p": []}, "of": "core::option::Option<?>"})],
+                                   "term": {"k": "switch", "discr": {"move": {"l": d2, "p": []}}, "dty": "isize", "targets": [["1", b_ok], ["0", b_err]], "otherwise": b_unr, "line": line, "exp": False},
+                                   "cleanup": False})
+                    blocks.append({"stmts": [assign({"l": tmp, "p": []}, _agg(RES, 0, "Ok", [{"move": {"l": inner, "p": [{"downcast": 1, "name": "Some"}, {"f": 0, "name": "0", "ty": "?"}]}}])),
+                                             assign(dest, _agg(OPT, 1, "Some", [{"move": {"l": tmp, "p": []}}]))], "term": {"k": "goto", "target": target, "line": line}, "cleanup": False})
+                    blocks.append({"stmts": [assign(dest, _agg(OPT, 0, "None", []))], "term": {"k": "goto", "target": target, "line": line}, "cleanup": False})
+                blocks.append({"stmts": [], "term": {"k": "unreachable", "line": line}, "cleanup": False})
+                did = True
+                break
+            # closure-taking adaptors: the closure must be a literal built in this function
+            if clo_idx >= len(t["args"]):
+                continue
+            cop = t["args"][clo_idx].get("move") or t["args"][clo_idx].get("copy")
+            if cop is None or cop["p"]:
+                continue
+            mk = None
+            for bl in raw["blocks"]:
+                for st in bl["stmts"]:
+                    if st["k"] == "assign" and st["place"] == {"l": cop["l"], "p": []} and st["rv"]["k"] == "agg" and st["rv"].get("agg") == "closure":
+                        mk = st
+            if mk is None:
+                continue
+            cname = mk["rv"].get("def")
+            cb = mir.bodies.get(cname)
+            if cb is None or cb.get("coroutine"):
+                continue
+            variants = {"opt": [("None", 0), ("Some", 1)], "res": [("Ok", 0), ("Err", 1)], "bool": [("false", 0), ("true", 1)]}[kind]
+            dl = new_local("isize")
+            first_new = len(blocks)
+            unr = None
+            entry = {}
+            for vn, vi in variants:
+                arm = arms[vn]
+                uses_call = arm[0] in ("call", "call0") or (arm[0] == "wrap" and arm[4] in ("call", "call0"))
+                with_param = arm[0] == "call" or (arm[0] == "wrap" and arm[4] == "call")
+                stmts = []
+                if not uses_call:
+                    if arm[0] == "same":
+                        stmts.append(assign(dest, {"k": "use", "x": {"move": {"l": recv["l"], "p": []}}}))
+                    elif arm[0] == "payload":
+                        stmts.append(assign(dest, {"k": "use", "x": payload(vi, vn)}))
+                    elif arm[0] == "arg":
+                        stmts.append(assign(dest, {"k": "use", "x": t["args"][arm[1]]}))
+                    elif arm[0] == "wrap":
+                        ops = [] if arm[4] == "none" else [payload(vi, vn)]
+                        stmts.append(assign(dest, _agg(arm[1], arm[2], arm[3], ops)))
+                    entry[vn] = len(blocks)
+                    blocks.append({"stmts": stmts, "term": {"k": "goto", "target": target, "line": line}, "cleanup": False})
+                    continue
+                # splice the closure body
+                loff, poff = len(locals_), len(promoted)
+                locals_.extend(cb["locals"])
+                promoted.extend(cb.get("promoted") or [])
+                upmap = {}
+                pre = []
+                for k, opnd in enumerate(mk["rv"]["ops"]):
+                    upmap[k] = new_local("?")
+                    pre.append(assign({"l": upmap[k], "p": []}, {"k": "use", "x": opnd}))
+                if with_param and cb["argc"] >= 2:
+                    pre.append(assign({"l": loff + 2, "p": []}, {"k": "use", "x": payload(vi, vn)}))
+                entry[vn] = len(blocks)
+                boff = len(blocks) + 1
+                blocks.append({"stmts": pre, "term": {"k": "goto", "target": boff, "line": line, "inlined_call": cname}, "cleanup": False})
+                for cblk in cb["blocks"]:
+                    st2 = _subst_env(_rewrite(cblk["stmts"], loff, boff, poff, cname), loff + 1, upmap)
+                    tm2 = _subst_env(_shift_blocks(_rewrite(cblk["term"], loff, boff, poff, cname), boff), loff + 1, upmap)
+                    if tm2 and tm2["k"] == "return":
+                        r = {"move": {"l": loff, "p": []}}
+                        if arm[0] in ("call", "call0"):
+                            st2 = st2 + [dict(assign(dest, {"k": "use", "x": r}), inlined_return=cname)]
+                        else:
+                            st2 = st2 + [assign(dest, _agg(arm[1], arm[2], arm[3], [r]))]
+                        tm2 = {"k": "goto", "target": target, "line": line}
+                    blocks.append({"stmts": st2, "term": tm2, "cleanup": cblk.get("cleanup", False)})
+            unr = len(blocks)
+            blocks.append({"stmts": [], "term": {"k": "unreachable", "line": line}, "cleanup": False})
+            if kind == "bool":
+                blocks[bi]["term"] = {"k": "switch", "discr": {"copy": {"l": recv["l"], "p": []}}, "dty": "bool", "targets": [["0", entry["false"]]], "otherwise": entry["true"], "line": line, "exp": False}
+            else:
+                blocks[bi]["stmts"].append(assign({"l": dl, "p": []}, {"k": "discr", "place": {"l": recv["l"], "p": []}, "of": aty}))
+                blocks[bi]["term"] = {"k": "switch", "discr": {"move": {"l": dl, "p": []}}, "dty": "isize",
+                                      "targets": [[str(vi), entry[vn]] for vn, vi in variants], "otherwise": unr, "line": line, "exp": False}
+            did = True
+            break          # indices changed: rescan
+        if not did:
+            break
+        changed = True
+        raw = dict(raw, blocks=blocks, locals=locals_, promoted=promoted)
+    if not changed:
+        return body
+    return Body(body.name.split("#expanded")[0] + "#expanded", raw, mir)
 
 
 # ---------------------------------------------------------------------------- variant-sensitive reachability
